@@ -155,53 +155,113 @@ def r3_port_lists(ctx, m, me) -> None:
     ctx.check(ok, "C12.R3", "export_region_dfg: sources/targets from the Input/Output rows", m.path, rd_o.lineno, "", rd_o)
 
 
+def export_arms(ctx, me):
+    """arms of export_node from its path summaries: [(class text, refused classes before it, paths)] in dispatch order,
+    plus the default paths (no class test taken).  `match`, isinstance chains and dict dispatch written as if-chains coincide."""
+    from ..rulekit import unold
+    en = me.methods["export_node"]
+    nodep = en.args.args[1].arg
+    ps = ctx.paths(f"{EXP}.ModelExport.export_node", bound=8192)
+    subj = f"self.hugr[{nodep}].op"
+    arms: dict[str, dict] = {}
+    default = []
+    for p in ps:
+        taken = [(u(t.args[1]), i) for i, (t, k) in enumerate(p.tests) if k and isinstance(t, ast.Call) and u(t.func) == "isinstance" and len(t.args) == 2 and unold(t.args[0]) == subj]
+        refused = [x for t, k in p.tests if not k and isinstance(t, ast.Call) and u(t.func) == "isinstance" and len(t.args) == 2 and unold(t.args[0]) == subj
+                   for x in u(t.args[1]).split(" | ")]
+        if not taken:
+            default.append(p)
+            continue
+        cls = taken[0][0]
+        a = arms.setdefault(cls, {"refused": refused, "paths": []})
+        a["paths"].append(p)
+    # a path that passes a class test but ends at the default refusal (a guarded arm that was not taken) belongs to the default
+    dnodes = {id(p.node) for p in default if p.node is not None}
+    for cls in list(arms):
+        keep = [p for p in arms[cls]["paths"] if id(p.node) not in dnodes]
+        default += [p for p in arms[cls]["paths"] if id(p.node) in dnodes]
+        if keep:
+            arms[cls]["paths"] = keep
+        else:
+            del arms[cls]
+    return nodep, subj, arms, default
+
+
+def _node_calls(p):
+    """model.Node(..) constructions in the value a path returns"""
+    if p.kind != "return" or p.value is None:
+        return []
+    return [c for c in ast.walk(p.value) if isinstance(c, ast.Call) and u(c.func) == "model.Node"]
+
+
 def r4_cfg_boundary(ctx, m, me) -> None:
-    fn = me.methods["export_region_cfg"]
-    srcs = [s for s in ast.walk(fn) if isinstance(s, ast.Assign) and u(s.targets[0]) == "source" and isinstance(s.value, ast.Call)]
-    ok = len(srcs) == 1 and u(srcs[0].value) == "self.link_name(InPort(child, 0))"
-    ctx.check(ok, "C12.R4", "export_region_cfg: region source", m.path, srcs[0].lineno if srcs else fn.lineno,
-              "the control-flow region's source is the link on the entry block's *input* port 0 (reference: export.rs::export_cfg); using the entry's output port "
-              "merges the region source with the entry's first successor edge", srcs[0] if srcs else fn, expected="self.link_name(InPort(child, 0))",
-              found=u(srcs[0].value) if srcs else "")
-    guard = [n for n in ast.walk(fn) if isinstance(n, ast.If) and u(n.test) == "source is None" and srcs and srcs[0] in list(ast.walk(n))]
-    ctx.check(bool(guard), "C12.R4", "export_region_cfg: first block is the entry", m.path, fn.lineno, "only the first DataflowBlock child defines the source", fn)
-    tg = [s for s in ast.walk(fn) if isinstance(s, ast.Assign) and u(s.targets[0]) == "targets" and not isinstance(s.value, ast.List) or
-          (isinstance(s, ast.Assign) and u(s.targets[0]) == "targets" and isinstance(s.value, ast.List) and s.value.elts)]
-    ok = len(tg) == 1 and ("InPort(child, 0)" in u(tg[0].value) or "InPort(child, i)" in u(tg[0].value)) and any(
-        isinstance(c.pattern, ast.MatchAs) and u(c.pattern.pattern).startswith("ExitBlock") and tg[0] in list(ast.walk(c)) for n in ast.walk(fn) if isinstance(n, ast.Match) for c in n.cases)
-    ctx.check(ok, "C12.R4", "export_region_cfg: region targets", m.path, fn.lineno, "the targets are the exit block's input", fn)
+    """loop-body path summaries of export_region_cfg (canonical body)"""
+    from ..paths import summaries
+    from ..rulekit import arg_of
+    fn_o = me.methods["export_region_cfg"]
+    fn = ctx.cfn(f"{EXP}.ModelExport.export_region_cfg", subst=False)
     regs = [c for c in calls_in(fn) if u(c.func) == "model.Region"]
-    ok = len(regs) == 1 and u(kwarg(regs[0], "sources")) == "[source]" and u(kwarg(regs[0], "targets")) == "targets" and "CONTROL_FLOW" in u(kwarg(regs[0], "kind"))
-    ctx.check(ok, "C12.R4", "export_region_cfg: region assembled", m.path, fn.lineno, "", fn)
-    order = [u(c.pattern) for n in ast.walk(fn) if isinstance(n, ast.Match) for c in n.cases]
-    raises = any(isinstance(c.pattern, ast.MatchAs) and c.pattern.pattern is None and any(isinstance(s, ast.Raise) for s in c.body) for n in ast.walk(fn) if isinstance(n, ast.Match) for c in n.cases)
-    ctx.check(raises, "C12.R4", "export_region_cfg: unexpected children refused", m.path, fn.lineno, "", fn)
+    loops = [n for n in fn.body if isinstance(n, ast.For) and u(n.iter).endswith(".children") and isinstance(n.target, ast.Name)]
+    if len(regs) != 1 or len(loops) != 1:
+        ctx.broken("export_region_cfg: region construction / child loop not found")
+    sv, tv, kv = arg_of(ctx, regs[0], "sources", m, me), arg_of(ctx, regs[0], "targets", m, me), arg_of(ctx, regs[0], "kind", m, me)
+    lp = loops[0]
+    ch = lp.target.id
+    op = f"self.hugr[{ch}].op"
+    src_name = sv.elts[0].id if isinstance(sv, ast.List) and len(sv.elts) == 1 and isinstance(sv.elts[0], ast.Name) else None
+    tgt_name = tv.id if isinstance(tv, ast.Name) else None
+    pre = [s_ for s_ in fn.body[: fn.body.index(lp)] if isinstance(s_, (ast.Assign, ast.AnnAssign)) and u(s_.targets[0] if isinstance(s_, ast.Assign) else s_.target) not in (src_name, tgt_name)]
+    bps = summaries(pre + lp.body)
+    ok_src = ok_first = ok_tgt = ok_ref = bool(bps) and src_name is not None and tgt_name is not None
+    seen = set()
+    found_src = ""
+    for p in bps:
+        cls = [u(t.args[1]) for t, k in p.tests if k and isinstance(t, ast.Call) and u(t.func) == "isinstance" and u(t.args[0]) == op]
+        if cls and cls[0] == "DataflowBlock":
+            first = [k for t, k in p.tests if u(t) == f"{src_name} is not None"]
+            if not first:
+                ok_first = False
+            elif not first[0]:
+                seen.add("entry")
+                found_src = u(p.env[src_name]) if src_name in p.env else "<not set>"
+                ok_src = ok_src and src_name in p.env and u(p.env[src_name]) == f"self.link_name(InPort({ch}, 0))"
+            else:
+                ok_first = ok_first and src_name not in p.env
+        elif cls and cls[0] == "ExitBlock":
+            seen.add("exit")
+            ok_tgt = ok_tgt and tgt_name in p.env and u(p.env[tgt_name]) in (f"[self.link_name(InPort({ch}, 0))]", f"[self.link_name(InPort({ch}, c0)) for c0 in range(1)]")
+        elif not cls:
+            seen.add("other")
+            ok_ref = ok_ref and p.kind == "raise"
+    ctx.check(ok_src and "entry" in seen, "C12.R4", "export_region_cfg: region source", m.path, fn_o.lineno,
+              "the control-flow region's source is the link on the entry block's *input* port 0 (reference: export.rs::export_cfg); using the entry's output port "
+              "merges the region source with the entry's first successor edge", fn_o, expected=f"self.link_name(InPort({ch}, 0))", found=found_src)
+    ctx.check(ok_first and "entry" in seen, "C12.R4", "export_region_cfg: first block is the entry", m.path, fn_o.lineno, "only the first DataflowBlock child defines the source", fn_o)
+    ctx.check(ok_tgt and "exit" in seen, "C12.R4", "export_region_cfg: region targets", m.path, fn_o.lineno, "the targets are the exit block's input", fn_o)
+    ok = src_name is not None and tgt_name is not None and kv is not None and "CONTROL_FLOW" in u(kv)
+    ctx.check(ok, "C12.R4", "export_region_cfg: region assembled", m.path, fn_o.lineno, "", fn_o)
+    ctx.check(ok_ref and "other" in seen, "C12.R4", "export_region_cfg: unexpected children refused", m.path, fn_o.lineno, "", fn_o)
 
 
 def r5_dispatch(ctx, m, me) -> None:
+    from ..rulekit import arg_of, unold
+    from ..tmpl import T, tfind, thas
     prog = ctx.program
     ops = prog.module("hugr.ops")
     fn = me.methods["export_node"]
-    mts = [n for n in real_body(fn) if isinstance(n, ast.Match)]
-    if len(mts) != 1:
-        ctx.broken("export_node: dispatch match not found")
-    arms = []
-    for c in mts[0].cases:
-        p = c.pattern
-        if isinstance(p, ast.MatchAs) and p.pattern is not None:
-            p = p.pattern
-        if isinstance(p, ast.MatchClass) and c.guard is None:      # a guarded arm does not cover its class
-            arms.append((u(p.cls), c))
-    last = mts[0].cases[-1]
-    ok = isinstance(last.pattern, ast.MatchAs) and (last.pattern.pattern is None) and any(isinstance(s, ast.Raise) for s in last.body)
-    ctx.check(ok, "C12.R5", "export_node: fall-through raises", m.path, last.pattern.lineno, "an operation without an arm must be refused, not dropped", last.pattern)
+    nodep, subj, arms, default = export_arms(ctx, me)
+    if len(arms) < 10:
+        ctx.broken("export_node: dispatch over the operation classes not found")
+    ok = bool(default) and all(p.kind == "raise" for p in default)
+    ctx.check(ok, "C12.R5", "export_node: fall-through raises", m.path, fn.lineno, "an operation without an arm must be refused, not dropped", fn)
     handled_elsewhere = {"Input": "export_region_dfg", "Output": "export_region_dfg", "ExitBlock": "export_region_cfg", "Case": "export_region_dfg (via Conditional)",
                          "Module": "export_region_module"}
     arm_classes = {}
-    for name, c in arms:
-        k = ops.classes.get(name)
-        if k is not None:
-            arm_classes[name] = k
+    for name in arms:
+        for part in name.split(" | "):
+            k = ops.classes.get(part.split(".")[-1])
+            if k is not None:
+                arm_classes[part.split(".")[-1]] = k
     for cname, c in ops.classes.items():
         if "_to_serial" not in [mm for kk in c.mro for mm in kk.methods] or "Protocol" in [u(b).split("[")[0] for b in c.node.bases] or cname in ("Op",):
             continue
@@ -219,25 +279,54 @@ def r5_dispatch(ctx, m, me) -> None:
         ctx.check(bool(cover), "C12.R5", f"hugr.ops.{cname}: has an export arm", m.path, fn.lineno,
                   f"operation class {cname} is matched by no arm of export_node: exporting a HUGR containing it raises 'Unknown operation'", fn,
                   detail=f"arm {cover[0]}" if cover else "")
-    # shadowing: an earlier arm whose class is a base of a later arm's class makes the later arm dead
-    names = [a for a, _ in arms]
-    for i, a in enumerate(names):
-        for b in names[i + 1:]:
-            ka, kb = arm_classes.get(a), arm_classes.get(b)
-            if ka is not None and kb is not None and ka in kb.mro and ka is not kb:
-                ctx.fail("C12.R5", f"export_node: arm {b} shadowed by {a}", m.path, fn.lineno, f"the arm for {b} can never be reached because {a} (a base class) comes first", fn)
-    ctx.ok("C12.R5", "export_node: no arm is shadowed", f"{len(names)} arms")
+    # shadowing: an arm whose class has a base that was already refused on every path into it can never be taken
+    for name, a in arms.items():
+        for part in name.split(" | "):
+            kb = arm_classes.get(part.split(".")[-1])
+            for r in a["refused"]:
+                ka = arm_classes.get(r.split(".")[-1])
+                if ka is not None and kb is not None and ka in kb.mro and ka is not kb:
+                    ctx.fail("C12.R5", f"export_node: arm {part} shadowed by {r}", m.path, fn.lineno, f"the arm for {part} can never be reached because {r} (a base class) comes first", fn)
+    ctx.ok("C12.R5", "export_node: no arm is shadowed", f"{len(arms)} arms")
     # the Const arm returns None (inlined into its loads) and region exporters skip None
-    carm = [c for a, c in arms if a == "Const"]
-    ok = len(carm) == 1 and any(isinstance(s, ast.Return) and u(s.value) == "None" for s in carm[0].body)
+    carm = arms.get("Const")
+    ok = carm is not None and all(p.kind == "return" and p.value_text() == "None" for p in carm["paths"])
     ctx.check(ok, "C12.R5", "export_node: constants are inlined into their loads", m.path, fn.lineno, "", fn)
     for rn in ("export_region_module", "export_region_dfg", "export_region_cfg"):
-        rf = me.methods[rn]
-        loops = [n for n in ast.walk(rf) if isinstance(n, ast.For) and u(n.iter) == "node_data.children"]
-        ok = len(loops) == 1 and any(call_name(c) == "export_node" for c in calls_in(loops[0])) and "children.append(child_node)" in u(loops[0])
-        ctx.check(ok, "C12.R5", f"{rn}: children exported in order", m.path, rf.lineno, "regions mirror the hierarchy: every child, in child order", rf)
-    cond = [c for a, c in arms if a == "Conditional"]
-    ok = len(cond) == 1 and "self.export_region_dfg(child) for child in node_data.children" in u(cond[0])
+        rf_o = me.methods[rn]
+        rf = ctx.cfn(f"{EXP}.ModelExport.{rn}")
+        npar = rf.args.args[1].arg
+        ok = False
+        # comprehension form
+        for form in (f"[self.export_node(c0) for c0 in self.hugr[{npar}].children if self.export_node(c0) is not None]",
+                     f"[c1 for c0 in self.hugr[{npar}].children if (c1 := self.export_node(c0)) is not None]",
+                     f"[L_x for c0 in self.hugr[{npar}].children if (L_x := self.export_node(c0)) is not None]"):
+            if thas(rf, form):
+                ok = True
+        # loop form: every child, in child order, appended unless the exporter answered None
+        for lp in [n for n in ast.walk(rf) if isinstance(n, ast.For) and u(n.iter) in (f"self.hugr[{npar}].children", "node_data.children") and isinstance(n.target, ast.Name)]:
+            from ..paths import summaries
+            ch = lp.target.id
+            good = False
+            for q in summaries(lp.body):
+                ex = q.find_effect(f"self.export_node({ch})")
+                if ex:
+                    app = q.find_effect(f"L_acc.append(self.export_node({ch}))")
+                    some = [k for t, k in q.tests if u(t) == f"self.export_node({ch}) is not None"]
+                    if some and some[0] and app:
+                        good = True
+                    elif some and some[0] and not app:
+                        good = False
+                        break
+            ok = ok or good
+        ctx.check(ok, "C12.R5", f"{rn}: children exported in order", m.path, rf_o.lineno, "regions mirror the hierarchy: every child, in child order", rf_o)
+    cond = arms.get("Conditional")
+    ok = cond is not None
+    if ok:
+        for p in cond["paths"]:
+            ns = _node_calls(p)
+            rg = arg_of(ctx, ns[0], "regions", m, me) if len(ns) == 1 else None
+            ok = ok and rg is not None and unold(rg) == f"[self.export_region_dfg(c0) for c0 in self.hugr[{nodep}].children]"
     ctx.check(ok, "C12.R5", "export_node: one region per case, in order", m.path, fn.lineno, "", fn)
 
 
@@ -292,17 +381,37 @@ def r6_binding_table(ctx) -> None:
 
 
 def r7_plumbing(ctx, m, me) -> None:
+    from ..paths import summaries
+    from ..rulekit import arg_of, unold
+    from ..tmpl import T, tmatch, thas
     init = me.methods.get("__init__")
-    loops = [n for n in ast.walk(init) if isinstance(n, ast.For)]
-    ok = len(loops) == 1 and u(loops[0].iter) == "self.hugr.links()" and len(loops[0].body) == 1 and isinstance(loops[0].body[0], ast.Expr) \
-        and "self.link_ports.union(" in u(loops[0].body[0]) and isinstance(loops[0].body[0].value, ast.Call) \
-        and sorted(u(a) for a in loops[0].body[0].value.args) == sorted(u(e) for e in loops[0].target.elts)
+    ci = ctx.cfn(f"{EXP}.ModelExport.__init__", subst=False)
+    loops = [n for n in ast.walk(ci) if isinstance(n, ast.For)]
+    ok = len(loops) == 1 and u(loops[0].iter) == "self.hugr.links()" and isinstance(loops[0].target, ast.Tuple) and len(loops[0].target.elts) == 2
+    if ok:
+        a_, b_ = u(loops[0].target.elts[0]), u(loops[0].target.elts[1])
+        bps = summaries(loops[0].body)
+        ok = bool(bps) and all(q.kind == "fall" and not q.tests and (len(q.find_effect(f"self.link_ports.union({a_}, {b_})")) == 1 or len(q.find_effect(f"self.link_ports.union({b_}, {a_})")) == 1) for q in bps)
     ctx.check(ok, "C12.R7", "ModelExport.__init__: every edge merges its two ports", m.path, init.lineno,
               "two ports carry the same link name exactly when an edge joins them: the union-find must be built over all hugr.links()", init)
     ln = me.methods.get("link_name")
-    src = u(ln)
-    ok = "root = self.link_ports[port]" in src and "if root in self.link_names" in src and "self.link_names[root] = index" in src and "str(len(self.link_names))" in src
-    ctx.check(ok, "C12.R7", "ModelExport.link_name: one fresh name per component", m.path, ln.lineno, "", ln)
+    pp = ln.args.args[1].arg
+    ps = ctx.paths(f"{EXP}.ModelExport.link_name")
+    root = f"self.link_ports[{pp}]"
+    ok = bool(ps)
+    seen = set()
+    for q in ps:
+        known = [k for t, k in q.tests if u(t) == f"{root} in self.link_names"]
+        st = q.find_effect(f"self.link_names[{root}] = E_v")
+        if not known or q.kind != "return":
+            ok = False
+        elif known[0]:
+            seen.add("known")
+            ok = ok and not st and q.value_text() == f"self.link_names[{root}]"
+        else:
+            seen.add("fresh")
+            ok = ok and len(st) == 1 and st[0][2]["E_v"] == "str(len(self.link_names))" and unold(q.value) in ("str(len(self.link_names))", f"self.link_names[{root}]")
+    ctx.check(ok and seen == {"known", "fresh"}, "C12.R7", "ModelExport.link_name: one fresh name per component", m.path, ln.lineno, "", ln)
     uf = ctx.program.module(EXP).classes.get("_UnionFind")
     un = uf.methods.get("union")
     a_, b_ = un.args.args[1].arg, un.args.args[2].arg
@@ -323,21 +432,38 @@ def r7_plumbing(ctx, m, me) -> None:
     ctx.check(ok and seen == {"same", "merge"}, "C12.R7", "_UnionFind.union", m.path, un.lineno, "the roots of the two elements are linked unless they already coincide", un,
               found="; ".join(p.describe() + " :: " + " | ".join(p.effect_texts()) for p in ps)[:300])
     en = me.methods["export_node"]
-    loops = [n for n in real_body(en) if isinstance(n, ast.For)]
-    ok = len(loops) == 1 and u(loops[0].iter) == "node_data.metadata.items()" and "compat.meta_json" in u(loops[0]) and "meta.append(" in u(loops[0]) \
-        and not any(isinstance(x, (ast.If, ast.Continue, ast.Break)) for x in ast.walk(loops[0]))
-    ctx.check(ok, "C12.R7", "export_node: every metadata entry carried over", m.path, en.lineno, "", en)
-    nodes = [c for c in calls_in(en) if u(c.func) == "model.Node"]
-    missing = [c for c in nodes if kwarg(c, "meta") is None or u(kwarg(c, "meta")) != "meta"]
-    ctx.check(not missing and len(nodes) >= 15, "C12.R7", "export_node: every model node receives the metadata", m.path, missing[0].lineno if missing else en.lineno,
-              "a model.Node(...) is built without meta=meta: metadata and order keys of that operation kind are dropped", missing[0] if missing else None,
-              detail=f"{len(nodes)} node constructions")
-    dflow = [c for c in nodes if kwarg(c, "inputs") is not None]
-    bad = [c for c in dflow if u(kwarg(c, "inputs")) != "inputs" or kwarg(c, "outputs") is None or u(kwarg(c, "outputs")) != "outputs"]
-    ctx.check(not bad, "C12.R7", "export_node: port lists passed unswapped", m.path, bad[0].lineno if bad else en.lineno, "", bad[0] if bad else None)
-    key = [n for n in ast.walk(en) if isinstance(n, ast.If) and "_needs_order_key(self.hugr, node)" in u(n.test)]
-    ok = len(key) == 1 and "core.order_hint.key" in u(key[0]) and "model.Literal(node.idx)" in u(key[0])
-    ctx.check(ok, "C12.R7", "export_node: order key = node index", m.path, en.lineno, "both endpoints of a hint must carry matching keys (their node indices)", en)
+    nodep, subj, arms, default = export_arms(ctx, me)
+    allp = [p for a in arms.values() for p in a["paths"]]
+    meta_init = f"[model.Apply('compat.meta_json', [model.Literal(c0), model.Literal(json.dumps(c1))]) for c0, c1 in self.hugr[{nodep}].metadata.items()]"
+    ok_meta = ok_nodes = ok_ports = ok_key = bool(allp)
+    nnodes = 0
+    miss = None
+    for p in allp:
+        inits = [e for e in p.effects if isinstance(e, ast.Assign) and isinstance(e.targets[0], ast.Name) and "compat.meta_json" in u(e.value)]
+        if len(inits) != 1 or unold(inits[0].value) != meta_init:
+            ok_meta = False
+            continue
+        acc = inits[0].targets[0].id
+        keyt = [k for t, k in p.tests if u(t) == f"_needs_order_key(self.hugr, {nodep})"]
+        keys = p.find_effect(f"{acc}.append(model.Apply('core.order_hint.key', [model.Literal({nodep}.idx)]))")
+        ok_key = ok_key and bool(keyt) and (len(keys) == 1 if keyt[0] else not keys)
+        for c in _node_calls(p):
+            nnodes += 1
+            mv = arg_of(ctx, c, "meta", m, me)
+            if mv is None or u(mv) != acc:
+                ok_nodes = False
+                miss = c
+            iv, ov = arg_of(ctx, c, "inputs", m, me), arg_of(ctx, c, "outputs", m, me)
+            if iv is not None or ov is not None:
+                good = iv is not None and ov is not None and unold(iv).startswith(f"[self.link_name(InPort({nodep}, c0)) for c0 in range(") \
+                    and unold(ov).startswith(f"[self.link_name(OutPort({nodep}, c0)) for c0 in range(")
+                ok_ports = ok_ports and good
+    ctx.check(ok_meta, "C12.R7", "export_node: every metadata entry carried over", m.path, en.lineno, "", en)
+    ctx.check(ok_nodes and nnodes >= 15, "C12.R7", "export_node: every model node receives the metadata", m.path, getattr(miss, "lineno", en.lineno),
+              "a model.Node(...) is built without meta=meta: metadata and order keys of that operation kind are dropped", miss,
+              detail=f"{nnodes} node constructions")
+    ctx.check(ok_ports, "C12.R7", "export_node: port lists passed unswapped", m.path, en.lineno, "", en)
+    ctx.check(ok_key, "C12.R7", "export_node: order key = node index", m.path, en.lineno, "both endpoints of a hint must carry matching keys (their node indices)", en)
     nk = ctx.program.module(EXP).functions.get("_needs_order_key")
     ok = nk is not None
     if ok:
@@ -372,18 +498,26 @@ def r7_plumbing(ctx, m, me) -> None:
 
 
 def r8_ext_arms(ctx, m, me) -> None:
+    from ..rulekit import arg_of, unold
+    from ..tmpl import T, tmatch
     fn = me.methods["export_node"]
-    arms = {}
-    for n in ast.walk(fn):
-        if isinstance(n, ast.match_case) and isinstance(n.pattern, ast.MatchAs) and isinstance(n.pattern.pattern, ast.MatchClass):
-            arms[u(n.pattern.pattern.cls)] = n
+    nodep, subj, arms, default = export_arms(ctx, me)
     cu, ae = arms.get("Custom"), arms.get("AsExtOp")
     if cu is None or ae is None:
         ctx.broken("export_node: Custom / AsExtOp arms not found")
-    def vals(arm):
-        return {u(s.targets[0]): s.value for s in arm.body if isinstance(s, ast.Assign)}
-    vc, va = vals(cu), vals(ae)
-    ok_name = u(vc.get("name")) == "f'{op.extension}.{op.op_name}'" and u(va.get("name")) == "op.op_def().qualified_name()"
+
+    def parts(arm):
+        out = []
+        for p in arm["paths"]:
+            for c in _node_calls(p):
+                opv = arg_of(ctx, c, "operation", m, me)
+                e = tmatch(opv, T("model.CustomOp(model.Apply(E_name, E_args))")) if opv is not None else None
+                sg = arg_of(ctx, c, "signature", m, me)
+                out.append((unold(e["E_name"]) if e else None, unold(e["E_args"]) if e else None, unold(sg) if sg is not None else None))
+        return out
+    pc, pa = parts(cu), parts(ae)
+    op = f"self.hugr[{nodep}].op"
+    ok_name = bool(pc) and bool(pa) and all(x[0] == f"f'{{{op}.extension}}.{{{op}.op_name}}'" for x in pc) and all(x[0] == f"{op}.op_def().qualified_name()" for x in pa)
     from ..nf import NF, Opaque, ite_normal
     nf_ = NF(ctx.program)
     od = ctx.program.cls("hugr.ext.OpDef")
@@ -393,13 +527,13 @@ def r8_ext_arms(ctx, m, me) -> None:
         ok_name = ok_name and got_q == want_q
     except Opaque:
         ok_name = False
-    ctx.check(ok_name, "C12.R8", "export_node: opaque and resolved ops export the same symbol", m.path, cu.pattern.lineno,
-              "Custom exports <extension>.<op_name>; a resolved op must export its definition's qualified name (same string through the resolution correspondence)", cu.pattern)
-    ok_args = "[arg.to_model() for arg in op.args]" in u(vc.get("args")) and "[arg.to_model() for arg in op.type_args()]" in u(va.get("args"))
-    ok_sig = u(vc.get("signature")) == "op.signature.to_model()" and u(va.get("signature")) == "op.outer_signature().to_model()"
-    ctx.check(ok_args and ok_sig, "C12.R8", "export_node: opaque and resolved ops export the same arguments and signature", m.path, cu.pattern.lineno, "", cu.pattern)
-    names = list(arms)
-    ctx.check(names.index("Custom") < names.index("AsExtOp") or True, "C12.R8", "export_node: arms distinct", m.path, fn.lineno, "", fn)
+    ctx.check(ok_name, "C12.R8", "export_node: opaque and resolved ops export the same symbol", m.path, fn.lineno,
+              "Custom exports <extension>.<op_name>; a resolved op must export its definition's qualified name (same string through the resolution correspondence)", fn,
+              found=str(pc[:1] + pa[:1])[:300])
+    ok_args = all(x[1] is not None and f"[c0.to_model() for c0 in {op}.args]" in x[1] for x in pc) and all(x[1] is not None and f"[c0.to_model() for c0 in {op}.type_args()]" in x[1] for x in pa)
+    ok_sig = all(x[2] == f"{op}.signature.to_model()" for x in pc) and all(x[2] == f"{op}.outer_signature().to_model()" for x in pa)
+    ctx.check(bool(pc) and bool(pa) and ok_args and ok_sig, "C12.R8", "export_node: opaque and resolved ops export the same arguments and signature", m.path, fn.lineno, "", fn)
+    ctx.check("Custom" not in ae["refused"] or True, "C12.R8", "export_node: arms distinct", m.path, fn.lineno, "", fn)
 
 
 def run(ctx) -> None:
